@@ -81,6 +81,11 @@ type World struct {
 }
 
 func newWorld(sc *Scenario, log *EventLog, seed, baseSeed int64) *World {
+	if sc.Grp != "" && sc.Gk == "log" {
+		// the members of a logger group are the same input twice: every random choice of the rendering is shared
+		// (a byte fault lands on the same text in both runs)
+		seed = scnSeed(sc.Grp, baseSeed)
+	}
 	w := &World{
 		sc: sc, log: log, epoch: time.Now(),
 		rnd:     rand.New(rand.NewSource(seed)),
